@@ -20,7 +20,7 @@ func regress(c *hc.Ctx) {
 		msg, hung := guard(func() { bad = f() })
 		switch {
 		case hung:
-			fail(c, "hang:"+kind, desc+" did not return within 6s", map[string]any{"regress": desc})
+			fail(c, "hang:"+kind, desc+" did not return (watchdog)", map[string]any{"regress": desc})
 		case msg != "":
 			fail(c, kind, desc+" panicked: "+msg, map[string]any{"regress": desc})
 		case bad != "":
